@@ -86,6 +86,18 @@ Unseen(r, c) ==
          [] c = "hyperparameters" -> r.hp # E.hp
          [] OTHER -> FALSE
 
+\* ---- history shape class ------------------------------------------------------------------------
+Hist == T.hdr.hist
+SameEx  == \E i \in DOMAIN Hist : Hist[i].ex = T.hdr.probe.ex
+OtherEx == \E i \in DOMAIN Hist : Hist[i].ex # T.hdr.probe.ex
+OkSession == \E i \in DOMAIN A.hist_exc : A.hist_exc[i] = "none"
+\* a missing driver can only come from a session on another exchange name, a stale configuration value only
+\* from one on the same name; the class is named after the kind of session that can explain it when there is one
+Shape(c) == IF Len(Hist) = 0 THEN "fresh-process"
+            ELSE "after-" \o (IF OkSession THEN "ok-session" ELSE "crash") \o "-"
+                 \o (IF c = "driver" THEN (IF OtherEx THEN "other-exchange-name" ELSE "same-exchange")
+                     ELSE (IF SameEx THEN "same-exchange" ELSE "other-exchange-name"))
+
 IsRoot(c) == \E i \in DOMAIN Root : Root[i] = c
 Explained == flagged \cap Behavioural # {}
 
@@ -101,17 +113,9 @@ Step ==
          fhit == IsRoot(c) /\ Unseen(F, c)
      IN /\ flagged' = IF hit THEN flagged \cup {c} ELSE flagged
         /\ freshFlagged' = IF fhit THEN freshFlagged \cup {c} ELSE freshFlagged
-        /\ verdict' = IF hit THEN Add(verdict, c) ELSE verdict
+        /\ verdict' = IF hit THEN Add(verdict, c \o ":" \o Shape(c)) ELSE verdict
   /\ l' = l + 1 /\ UNCHANGED tid
 Spec == Init /\ [][Step]_vars
-
-\* ---- history shape class ------------------------------------------------------------------------
-Hist == T.hdr.hist
-SameEx == \E i \in DOMAIN Hist : Hist[i].ex = T.hdr.probe.ex
-OkSession == \E i \in DOMAIN A.hist_exc : A.hist_exc[i] = "none"
-Shape == IF Len(Hist) = 0 THEN "fresh-process"
-         ELSE "after-" \o (IF OkSession THEN "ok-session" ELSE "crash") \o "-"
-                       \o (IF SameEx THEN "same-exchange" ELSE "other-exchange-name")
 
 \* ---- does the as-is variant of Session.tla predict exactly this?  (calibration of the model) -----
 SeqToSet(s) == {s[i] : i \in DOMAIN s}
@@ -131,6 +135,6 @@ FreshVerdict == IF freshFlagged = {} THEN "ok"
                                       ELSE J(i + 1)
                      IN J(1)
 Finished == l > Len(All)
-Report == Finished => PrintT(<<"VERDICT", T.id, l - 1, IF verdict = "" THEN "ok" ELSE verdict, Shape, ModelAgrees,
+Report == Finished => PrintT(<<"VERDICT", T.id, l - 1, IF verdict = "" THEN "ok" ELSE verdict, ModelAgrees,
                                FreshVerdict>>)
 =============================================================================
